@@ -356,11 +356,91 @@ def run(ctx):
                 continue
             compare(ctx, case, sched, expect, reply)
         ctx.extra["peak_established_by_max"] = {str(k): v for k, v in sorted(peaks.items())}
+        check_restart(ctx)
     finally:
         try:
             srv.shutdown()
         except Exception:
             pass
+
+
+def restart_scenario(m, via):
+    """The limit is the AE's, not a listener's: fill the AE to its limit through one server, stop that server (its
+    associations stay open), open another listener on the same AE (`via` = "start_server" | "make_server") and ask
+    for more associations.  -> dict(first=[answers], later=[answers], peak=established acceptor associations seen)"""
+    from pynetdicom import AE
+    from pynetdicom.association import Association
+
+    ae = AE(ae_title="SCP")
+    ae.add_supported_context(rp.VERIFICATION)
+    ae.acse_timeout = 5
+    ae.network_timeout = 30
+    ae.maximum_associations = m
+
+    def established():
+        return len([t for t in threading.enumerate() if isinstance(t, Association) and t.ae is ae and t.is_acceptor and t.is_established])
+
+    def ask(addr):
+        p = rp.RawPeer(addr)
+        p.send(rp.build_rq(b"SCP".ljust(16), b"PEER".ljust(16)))
+        return p, rp.classify(p.recv_pdu(5.0))
+
+    out = {"first": [], "later": [], "peak": 0}
+    held = []
+    srv_a = ae.start_server(("127.0.0.1", 0), block=False)
+    srv_b = None
+    try:
+        for _ in range(m + 1):
+            p, v = ask(srv_a.server_address)
+            out["first"].append(v)
+            held.append(p)
+            out["peak"] = max(out["peak"], established())
+        srv_a.shutdown()
+        time.sleep(0.05)
+        if via == "start_server":
+            srv_b = ae.start_server(("127.0.0.1", 0), block=False)
+        else:
+            srv_b = ae.make_server(("127.0.0.1", 0))
+            threading.Thread(target=srv_b.serve_forever, daemon=True).start()
+        for _ in range(m + 1):
+            p, v = ask(srv_b.server_address)
+            out["later"].append(v)
+            held.append(p)
+            out["peak"] = max(out["peak"], established())
+        return out
+    finally:
+        for p in held:
+            try:
+                p.send(rp.ABORT)
+                p.close()
+            except Exception:
+                pass
+        for sv in (srv_b, srv_a):
+            try:
+                if sv is not None:
+                    sv.shutdown()
+            except Exception:
+                pass
+
+
+def check_restart(ctx):
+    for m in (1, 2):
+        for via in ("start_server", "make_server"):
+            case = ["restart", m, via]
+            try:
+                out = restart_scenario(m, via)
+            except Exception as exc:
+                ctx.diff(case, repr(exc), "n/a", what="server replacement scenario failed")
+                continue
+            ctx.case(case, nontrivial=True, kind=f"restart:{via}")
+            want_first = [["accept"]] * m + [["reject", 2, 3, 2]]
+            want_later = [["reject", 2, 3, 2]] * (m + 1)
+            if out["peak"] > m or out["later"] != want_later:
+                ctx.fail(f"c14:over-limit-after-server-replacement:{via}",
+                         f"maximum_associations={m}: {m} associations held through a listener that was then shut down; a second listener "
+                         f"({via}) on the same AE answered {out['later']} (expected rejections (2,3,2)); established acceptor associations peaked at {out['peak']}", case)
+            elif out["first"] != want_first:
+                ctx.diff(case, out["first"], want_first, what="first listener: answers differ from accept x max + reject(2,3,2)")
 
 
 def search(ctx):
@@ -393,6 +473,10 @@ def out_answers(out):
 def replay(ctx, case):
     rp.quiet()
     c = case["case"]
+    if c[0] == "restart":
+        out = restart_scenario(c[1], c[2])
+        print(out)
+        return 1 if out["peak"] > c[1] or out["later"] != [["reject", 2, 3, 2]] * (c[1] + 1) else 0
     ae, srv, rec = make_server()
     rc = 0
     try:
